@@ -50,6 +50,7 @@ func depList(d map[string]bool) string {
 
 func c19(c *Ctx) {
 	r := c.R
+	r.Explain = "Only structural clauses of the rate limiter are decided, not the admitted-bytes inequalities.  Every feasible path of qos_egress_prog and qos_ingress_prog (token_bucket_check inlined) is enumerated by path-sensitive abstract interpretation of clang's AST; each value carries the set of inputs it depends on.  Decided: rate 0 admits before any arithmetic and leaves the bucket untouched; the token count is written only by refill (old tokens + credit(elapsed, rate)), cap (= burst, only under tokens > burst or an elapsed-time bound depending on burst and rate) and consumption (- length, only under tokens >= length); verdicts match consumption; the clock is set to now only with a full bucket or a non-zero credit (otherwise the remainder is carried); lookup keys and rates have the right direction.  Go side: SetSubscriberQoS makes both map writes on every successful return unless the map is nil, with rate/burst/priority/tokens taken from the policy.  Numeric behaviour over arrival sequences, overflow and multi-CPU races are not decided."
 	r.Rule("C19.unlimited", "a rate of zero returns 'admit' before any bucket arithmetic and without touching the bucket", 2)
 	r.Rule("C19.updates", "the token count is written only by (a) the refill: old tokens plus a credit that depends on elapsed time and the rate, (b) the cap: tokens = burst, under tokens > burst or under an elapsed-time test against a bound that depends on burst and rate, (c) the consumption: tokens - packet length, under tokens >= packet length; nothing else writes it", 6)
 	r.Rule("C19.verdict", "a packet is admitted exactly on the paths that consumed its length (or have rate 0 / no policy); it is dropped exactly on the paths where tokens < length, without consumption", 6)
